@@ -46,6 +46,11 @@ _psSodium_crypto_sign_ed25519_verify_detached(const unsigned char *sig,
     if (sig[63] & 224) {
         return -1;
     }
+    /* RFC 8032, 5.1.7: S must be an integer in the range 0 <= S < L;
+       otherwise (R, S + L) would verify as well. */
+    if (psSodium_sc25519_is_canonical(sig + 32) == 0) {
+        return -1;
+    }
 #endif
     if (psSodium_ge25519_has_small_order(pk) != 0 ||
         psSodium_ge25519_frombytes_negate_vartime(&A, pk) != 0) {
